@@ -449,8 +449,15 @@ func genAliasRule(r *core.Result) {
 							hit = true
 						}
 						if c, ok := m.(*ast.CallExpr); ok {
-							if fn := staticCallee(info, c); fn != nil && fn.Name() == "DecodeBytes" && fn.Pkg() != nil && fn.Pkg().Path() == csp {
-								hit = true
+							if fn := staticCallee(info, c); fn != nil && fn.Pkg() != nil && fn.Pkg().Path() == csp {
+								if sig := fn.Type().(*types.Signature); sig.Recv() != nil && namedOf(sig.Recv().Type()) == "Decoder" {
+									// a decoder method's result aliases the input only for DecodeBytes / Skip
+									// (DecodeString copies in safe mode: C10 (a)); do not look into the receiver
+									if fn.Name() == "DecodeBytes" || fn.Name() == "Skip" {
+										hit = true
+									}
+									return false
+								}
 							}
 						}
 						return true
